@@ -36,3 +36,11 @@ add('C18', 'exploration', 'model-based property testing with a marshalling model
     'Every signal and method return of generated TCPCL (two real endpoints) and UDPCL histories passes through a model of dbus-python marshalling against the declared signature; queue queries, pops and the idle indication are compared with a reference model computed from the recorded event history at the moment of each query.',
     'vlib/dbusmodel.py is a model of the documented marshalling rules, not the library; bp/cla.py (needs a session bus) is not driven.',
     'DESIGN.md section 3 C18')
+add('C10', 'exploration', 'model-based property testing of receive histories against a seen-set / first-match routing reference model',
+    'Generated routing tables and receive histories (repeats, look-alike identities, own-source bundles, multi-match destinations) are fed to a real BP agent; after every bundle the application deliveries, end-of-processing records and bundles handed to the convergence layer are compared with a reference model.',
+    'Patterns are anchored so match/search agree; fragments routed to deliver are judged by C06; Agent._finish_bundle is wrapped on the instance for observation.',
+    'DESIGN.md section 3 C10')
+add('C11', 'exploration', 'property-based testing of forwarding histories; wire-level differential with an independent RFC 9171 codec',
+    'Histories of 1-3 generated bundles (any multiset of hop-by-hop and unknown blocks, CRC types, block numbering, creation time zero or past, clock advance) are forwarded by a real agent and the transmitted octets are compared with the received octets by an independent decoder (primary octet-identical, payload, previous node, hop counts +1, age, other blocks, numbering, CRCs).',
+    'Virtual clock; bundles fit the MTU; process-wide scapy state is reset between cases so that a case is a pure function of its own history.',
+    'DESIGN.md section 3 C11')
